@@ -19,6 +19,7 @@ import (
 	"github.com/MichaelMure/git-bug/entities/bug"
 	"github.com/MichaelMure/git-bug/entities/identity"
 	"github.com/MichaelMure/git-bug/entity"
+	"github.com/MichaelMure/git-bug/entity/dag"
 	"github.com/MichaelMure/git-bug/repository"
 
 	"verif/harness/hx"
@@ -200,6 +201,19 @@ func mutateBug(chain []*packSpec, i int, m string, author identity.Interface) []
 		p.ops = append(ops, b)
 	case "op_control_chars":
 		b, err := json.Marshal(bug.NewSetTitleOp(author, 1600000900, "ti\x00tle\x1b[31m", "was"))
+		hx.Must(err)
+		p.ops = append(ops, b)
+	case "edit_target_short", "edit_target_empty", "edit_target_long", "edit_target_badchars", "meta_target_short":
+		// an operation designating another one by an id that is none
+		tgt := map[string]string{"edit_target_short": "abc", "edit_target_empty": "", "edit_target_long": strings.Repeat("a", 70),
+			"edit_target_badchars": strings.Repeat("G!", 32), "meta_target_short": "abcdef"}[m]
+		var b []byte
+		var err error
+		if m == "meta_target_short" {
+			b, err = json.Marshal(dag.NewSetMetadataOp[*bug.Snapshot](bug.SetMetadataOp, author, 1600000900, entity.Id(tgt), map[string]string{"k": "v"}))
+		} else {
+			b, err = json.Marshal(bug.NewEditCommentOp(author, 1600000900, entity.Id(tgt), "edited", nil))
+		}
 		hx.Must(err)
 		p.ops = append(ops, b)
 	case "op_short_nonce":
